@@ -39,8 +39,9 @@ META = {
                   'part; random legs use <= 6 parts, contents <= 40 bytes (a few bodies beyond the 8 KiB / 32 KiB '
                   'default reader buffers), boundaries of length 1..70. Names and plain filenames exclude the '
                   'double quote and the backslash (RFC 7578 leaves their escaping open); charset is UTF-8. '
-                  'Behaviour after a failed get_data()/get_text() on the same part is not specified by the property '
-                  'and not exercised. Trusted: TLC, CPython UTF-8 and JSON codecs, the harness byte sources and '
+                  'After "body part is too large" only the buffered accessors are asked again (they must fail the same '
+                  'way); damaged bodies may carry any bytes in their headers: accessors must then report a value or raise '
+                  'the parse error. Trusted: TLC, CPython UTF-8 and JSON codecs, the harness byte sources and '
                   'raw WSGI/ASGI drivers. Reader buffer sizes other than the defaults are reached through the public '
                   'handler API (MultipartFormHandler.deserialize[_async] given a BufferedReader).',
 }
@@ -778,10 +779,6 @@ def run(ctx):
                              '16 KiB / 32 KiB reader-buffer edges, boundaries of 1..70 bytes, reader buffers from the '
                              'smallest legal size, transport chunks down to 1 byte'}
     ctx.extra['observed_not_flagged'] = [
-        'get_data()/get_text() called again on a part after it raised "body part is too large" returns the first '
-        'limit+1 bytes (the buffer is memoised before the size check); the property does not define a second call',
-        'name / filename / content_type raise UnicodeDecodeError (a 500) when a header value is not UTF-8 / ASCII; such a '
-        'body is structurally valid, so the "parse error only" clause is not applied to it',
         'a boundary containing a comma is refused with 415 by the media-handler lookup (Content-Type is split like an '
         'Accept header) before the multipart parser runs; commas are excluded from generated boundaries',
         'a quoted name ending in an escaped backslash ("a\\\\") is mis-split by the inherited cgi.parse_header logic; '
